@@ -7,7 +7,7 @@ CONSTANTS
   Desired = 2
   TickMs = 500
   Tmax = 3000
-  BuggyF11 = TRUE
+  BuggyF11 = FALSE
 VIEW view
 INVARIANTS Inv_C15_Counts Inv_C15_NextExpiry Inv_C15_Terminates
 PROPERTIES Prop_C05_C15_Refines
